@@ -23,7 +23,16 @@ def reset_server():
     server._subscribers.clear()
 
 
-def run_bus(tab, ops, lifetimes=False):
+# how the topic numbers of a history are spelt on the real bus: topics are arbitrary strings (they embed component names),
+# so names that look like shell patterns or prefixes of one another are topics like any other
+NAMINGS = {
+    "plain": lambda t: f"t{t}",
+    "glob": lambda t: ["t1", "t[1]", "t?", "t*", "t[!x]", "?1", "*"][t - 1],
+    "nested": lambda t: "t" + "1" * t,
+}
+
+
+def run_bus(tab, ops, lifetimes=False, naming="plain"):
     """tab: {(consumer, value): [(topic, value), ...]}; ops: ('S', c, [topics]) | ('P', t, value)
     lifetimes: nobody but the bus's own users refers to the server; every message is produced by a producer of
     its own which is dropped afterwards (a one-shot publisher), the garbage collector runs between operations --
@@ -36,6 +45,9 @@ def run_bus(tab, ops, lifetimes=False):
     recv = {}
     consumers = {}
     order_ok = True
+    nm = NAMINGS[naming]
+    back = {nm(t): t for t in range(1, 8)}
+    assert len(back) == 7
 
     class HC(InternalStateConsumer):
         def __init__(self, idx, cb):
@@ -70,7 +82,7 @@ def run_bus(tab, ops, lifetimes=False):
             async def cb(value):
                 recv.setdefault(c, []).append((topic_of[value], value))
                 for t, v in tab.get((c, value), []):
-                    await produce(f"t{t}", v)
+                    await produce(nm(t), v)
             return cb
 
         for o in ops:
@@ -81,14 +93,14 @@ def run_bus(tab, ops, lifetimes=False):
                 if c not in consumers:
                     consumers[c] = HC(c, mk(c))
                     recv.setdefault(c, [])
-                await consumers[c].subscribe([f"t{t}" for t in o[2]])
+                await consumers[c].subscribe([nm(t) for t in o[2]])
             else:
-                await produce(f"t{o[1]}", o[2])
+                await produce(nm(o[1]), o[2])
 
     asyncio.run(main())
     server = InternalStateServer()
-    logs = {int(t[1:]): [m.value for m in ms] for t, ms in server._topics.items()}
-    subs = {int(t[1:]): [c.idx for c in s] for t, s in server._subscribers.items() if s}
+    logs = {back[t]: [m.value for m in ms] for t, ms in server._topics.items()}
+    subs = {back[t]: [c.idx for c in s] for t, s in server._subscribers.items() if s}
     for t, s in subs.items():
         if s != sorted(s):
             order_ok = False
@@ -99,6 +111,10 @@ def r_tm(l): return L(T(P(t), Zr(v)) for t, v in l)
 
 
 def render(tab, ops, o):
+    # a consumer cannot legitimately receive more than every message once: a longer list is cut (it differs from the
+    # model's anyway) so that a runaway implementation yields a comparison, not a term Coq cannot read
+    cap = 4 * (sum(1 for x in ops if x[0] == "P") + sum(len(v) for v in tab.values())) + 50
+    o = dict(o, recv={c: ms[:cap] for c, ms in o["recv"].items()}, logs={t: ms[:cap] for t, ms in o["logs"].items()})
     rtab = L(T(P(c), Zr(v), r_tm(outs)) for (c, v), outs in tab.items())
     rops = L(f"Subscribe {P(x[1])} {L(P(t) for t in x[2])}" if x[0] == "S" else f"Produce {P(x[1])} {Zr(x[2])}" for x in ops)
     obs = "{| o_logs := %s; o_recv := %s; o_subs := %s |}" % (
@@ -263,8 +279,8 @@ REASONS = {1: "logs-differ-from-model", 2: "received-sequences-differ-from-model
            20: "not-exactly-once-in-order", 31: "topic-name-differs-from-model", 32: "topics-of-distinct-components-collide"}
 
 
-def evaluate(cases, lifetimes=False):
-    obs = [run_bus(tab, ops, lifetimes) for tab, ops in cases]
+def evaluate(cases, lifetimes=False, naming="plain"):
+    obs = [run_bus(tab, ops, lifetimes, naming) for tab, ops in cases]
     terms = [render(tab, ops, o) for (tab, ops), o in zip(cases, obs)]
     return obs, run_shards(PID, BUS_HEADER, "case", "check", terms, shard_size=500)
 
@@ -302,6 +318,26 @@ def main(tier, seed):
         ck.report(REASONS[lt_bad[i][0]] + "-with-one-shot-producers", f"InternalStateServer with short-lived producers: {REASONS[lt_bad[i][0]]}",
                   dict(kind="bus", lifetimes=True, handlers=[[c, v, outs] for (c, v), outs in tab.items()], ops=ops, observed=lt_obs[i], codes=lt_bad[i]))
         break
+    # the same histories with topic names that are shell patterns / prefixes of one another (a topic is an arbitrary string),
+    # and long histories: thousands of messages on one topic, then late subscribers (nothing may be forgotten)
+    for naming in ("glob", "nested"):
+        nm_cases = cases[:2 * n_ex][::5] + cases[2 * n_ex:][:250]
+        nm_obs, nm_bad = evaluate(nm_cases, naming=naming)
+        ck.evaluations += len(nm_cases)
+        ck.coverage[f"histories_with_{naming}_topic_names"] = len(nm_cases)
+        for i in sorted(nm_bad):
+            tab, ops = nm_cases[i]
+            ck.report(REASONS[nm_bad[i][0]] + "-with-pattern-like-topic-names", f"InternalStateServer with topics named {[NAMINGS[naming](t) for t in range(1, 6)]}: {REASONS[nm_bad[i][0]]}",
+                      dict(kind="bus", naming=naming, handlers=[[c, v, outs] for (c, v), outs in tab.items()], ops=ops, observed=nm_obs[i], codes=nm_bad[i]))
+            break
+    nlong = 2500 if tier == "quick" else 30000
+    long_ops = number([("S", 1, [1])] + [("P", 1 + (k % 7 == 3)) for k in range(nlong)] + [("S", 2, [1, 2]), ("P", 1), ("S", 3, [2]), ("P", 2)])
+    lg_obs, lg_bad = evaluate([({}, long_ops)])
+    ck.evaluations += 1
+    ck.coverage["long_history_messages"] = nlong
+    for i in sorted(lg_bad):
+        ck.report(REASONS[lg_bad[i][0]] + "-in-a-long-history", f"InternalStateServer after {nlong} messages: a late subscriber is not replayed the whole log ({REASONS[lg_bad[i][0]]})",
+                  dict(kind="bus", long=nlong, codes=lg_bad[i], replayed_to_late_subscriber=len(lg_obs[0]["recv"].get(2, []))))
     for (tab, ops), o in zip(cases, obs):
         ck.count(json.dumps([sorted((list(k), v) for k, v in tab.items()), ops]), nontrivial(tab, ops, o))
         if not o["order_ok"]:
@@ -361,9 +397,15 @@ def replay(rp):
         print(a, b, input_topic(a), output_topic(a), input_topic(b), output_topic(b))
         clash = a != b and (input_topic(a) == input_topic(b) or output_topic(a) == output_topic(b))
         return 1 if clash or input_topic(a) == output_topic(b) or input_topic(b) == output_topic(a) else 0
+    if rp.get("long"):
+        nlong = rp["long"]
+        ops = number([("S", 1, [1])] + [("P", 1 + (k % 7 == 3)) for k in range(nlong)] + [("S", 2, [1, 2]), ("P", 1), ("S", 3, [2]), ("P", 2)])
+        obs, bad = evaluate([({}, ops)])
+        print(f"{nlong} messages, then consumer 2 subscribes to both topics: it is replayed {len(obs[0]['recv'].get(2, []))} messages; codes:", bad.get(0, []))
+        return 1 if bad else 0
     tab = {(c, v): [tuple(x) for x in outs] for c, v, outs in rp["handlers"]}
     ops = [tuple(o) for o in rp["ops"]]
-    obs, bad = evaluate([(tab, ops)], lifetimes=bool(rp.get("lifetimes")))
+    obs, bad = evaluate([(tab, ops)], lifetimes=bool(rp.get("lifetimes")), naming=rp.get("naming", "plain"))
     print("ops:", ops, "handlers:", tab)
     print("observed:", obs[0])
     print("codes:", bad.get(0, []))
